@@ -518,64 +518,66 @@ def check_declared_types_decide(repo, rep, ops, uni, ad):
 
 
 def check_int_division(repo, rep):
+    """R15e by abstract evaluation of the division payload under the four
+    answers to (is the left operand an int, is the right one): the value
+    returned must be python // of the two operands exactly when both are
+    int and python / otherwise."""
+    from sa import absint
     m = repo.module('yaql.standard_library.math')
     div = m.func('division')
     ps = div.params()
-    def is_int_test(e, who):
-        return isinstance(e, ast.Call) and isinstance(
-            e.func, ast.Name) and e.func.id == 'isinstance' and \
-            len(e.args) == 2 and model.norm(e.args[0]) == who and \
-            model.norm(e.args[1]) in ('int', '(int,)')
+    L, R = absint.Sym('left'), absint.Sym('right')
+    OPS = {'operator.floordiv': 'FloorDiv', 'operator.truediv': 'Div',
+           'operator.__floordiv__': 'FloorDiv',
+           'operator.__truediv__': 'Div'}
 
-    def oracle(left_int, right_int):
-        def o(e):
-            if is_int_test(e, ps[0]):
-                return left_int
-            if is_int_test(e, ps[1]):
-                return right_int
+    def oracle(name, args, kwargs):
+        if name in OPS and len(args) == 2:
+            return (('op', OPS[name], args[0], args[1]),)
+        return None
+
+    def verdict(li, ri):
+        def inst(value, cls_expr):
+            names = [model.norm(x) for x in (
+                cls_expr.elts if isinstance(cls_expr, ast.Tuple)
+                else [cls_expr])]
+            if value is L or value is R:
+                is_int = li if value is L else ri
+                if names == ['int']:
+                    return is_int
+                if names == ['float']:
+                    return not is_int
+                if sorted(names) == ['float', 'int']:
+                    return True
+            raise absint.Unsupported('isinstance(%r, %s)' % (
+                value, model.norm(cls_expr)))
+        it = absint.Interp(repo, m, oracle, inst)
+        it.symbolic_ops = True
+        try:
+            out = it.run(div.node, {ps[0]: L, ps[1]: R})
+        except absint.Unsupported as e:
+            raise AnalysisError('R15e: the division payload is not '
+                                'decided: %s' % e)
+        if out[0] != 'return':
             return None
-        return o
-    floors = [x for x in ast.walk(div.node) if isinstance(x, ast.BinOp) and
-              isinstance(x.op, ast.FloorDiv) and
-              [model.norm(x.left), model.norm(x.right)] == ps]
-    trues = [x for x in ast.walk(div.node) if isinstance(x, ast.BinOp) and
-             isinstance(x.op, ast.Div) and
-             [model.norm(x.left), model.norm(x.right)] == ps]
-    # // exactly when both are int; / exactly when not
-    ok_floor = bool(floors) and all(
-        norm.reachable_under(x, div.node, oracle(True, True)) and
-        not norm.reachable_under(x, div.node, oracle(False, True)) and
-        not norm.reachable_under(x, div.node, oracle(True, False))
-        for x in floors) and not any(
-        norm.reachable_under(x, div.node, oracle(True, True))
-        for x in trues)
-    ok_true = bool(trues) and all(
-        norm.reachable_under(x, div.node, oracle(False, True)) and
-        norm.reachable_under(x, div.node, oracle(True, False)) and
-        norm.reachable_under(x, div.node, oracle(False, False))
-        for x in trues)
-    # every result is one of the two
-    rets = [r for r in model.walk_shallow(div.node)
-            if isinstance(r, ast.Return)]
-    for r in rets:
-        v = norm.subst_locals(div.node, r.value) if r.value is not None \
-            else None
-
-        def leaf_ok(e):
-            if isinstance(e, ast.IfExp):
-                return leaf_ok(e.body) and leaf_ok(e.orelse)
-            return isinstance(e, ast.BinOp) and isinstance(
-                e.op, (ast.FloorDiv, ast.Div)) and [
-                model.norm(e.left), model.norm(e.right)] == ps
-        if v is None or not leaf_ok(v):
-            ok_true = False
-    rep.ob('R15e', div.key + '/int-floor', ok_floor,
+        v = out[1]
+        if isinstance(v, tuple) and len(v) == 4 and v[0] == 'op' and \
+                v[2] is L and v[3] is R:
+            return v[1]
+        return None
+    both = verdict(True, True)
+    mixed = [verdict(a, b) for a, b in ((True, False), (False, True),
+                                        (False, False))]
+    rep.ob('R15e', div.key + '/int-floor', both == 'FloorDiv' and
+           'FloorDiv' not in mixed,
            'integer / integer must be computed with // on the two operands '
            '(exact at any magnitude and paired with mod so that a = (a / b) '
-           '* b + (a mod b))', loc=m.loc(div.node))
-    rep.ob('R15e', div.key + '/float-true-division', ok_true,
-           'mixed int/float division must be python true division',
-           loc=m.loc(div.node))
+           '* b + (a mod b)), and only then; found %s for int/int and %s '
+           'otherwise' % (both, mixed), loc=m.loc(div.node))
+    rep.ob('R15e', div.key + '/float-true-division',
+           all(x == 'Div' for x in mixed),
+           'mixed int/float division must be python true division of the '
+           'two operands; found %s' % mixed, loc=m.loc(div.node))
     mod = m.func('modulo')
     body = model.strip_docstring(mod.node.body)
     v = body[0].value if len(body) == 1 and isinstance(
